@@ -86,7 +86,7 @@ Section CloseStream.
       msg_events (k_tr c') = EvClosing code reason :: rev (map ev_of ms) ++ msg_events (k_tr c) /\
       perrors (k_tr c') = perrors (k_tr c) /\
       k_closing c' = true /\ k_closed c' = false /\
-      (passive app -> c_ping_rate cf = 0%Z -> c_auto_pong cf = true -> wok c ->
+      (c_ping_rate cf = 0%Z -> c_auto_pong cf = true -> wok c ->
        writes (k_tr c') = (OP_CLOSE, f_payload f) :: rev (pong_replies ms) ++ writes (k_tr c)).
   Proof.
     intros Hidle Hdh Hpl Hforms Href Hpf Hop Hfin Hlen Hform Hgood.
@@ -116,15 +116,19 @@ Section CloseStream.
     rewrite Hitem, (server_close_is_echoed cf app cs code reason Hcl Hcg Hvalid).
     unfold feed_yield.
     destruct (in_feed_yield_closing cs code reason Hsc) as (Y1 & (Z1&Z2&Z3&Z4&Z5&Z6&Z7&Z8) & Y3 & Y4).
-    pose proof (fun pa r0 => regular_writes cf app no_ping_timeout pa r0) as RW.
-    assert (WY : passive app -> c_ping_rate cf = 0%Z -> writes (k_tr (fst (in_feed_yield cf app cs (EvClosing code reason)))) = writes (k_tr cs)
+    pose proof (fun r0 => regular_writes cf app app_benign no_ping_timeout r0) as RW.
+    assert (WY : c_ping_rate cf = 0%Z -> writes (k_tr (fst (in_feed_yield cf app cs (EvClosing code reason)))) = writes (k_tr cs)
                  /\ (wok cs -> wok (fst (in_feed_yield cf app cs (EvClosing code reason))))).
-    { intros Pa R0. unfold in_feed_yield. cbn [on_event]. rewrite (deliver_passive app Pa).
-      assert (Hs0 : k_sent_close_time (emit (TEv (EvClosing code reason)) cs) = None) by exact Hsc.
-      destruct (RW Pa R0 (emit (TEv (EvClosing code reason)) cs) Hs0) as [R1 R2].
-      destruct (regular_quiet cf app app_benign no_ping_timeout (emit (TEv (EvClosing code reason)) cs) Hs0) as (Q1 & _).
-      destruct (regular cf app (emit (TEv (EvClosing code reason)) cs)) as [c2 st2]. cbn [fst snd] in *. subst st2.
-      split; [exact R1|exact R2]. }
+    { intros R0. unfold in_feed_yield. cbn [on_event].
+      destruct (deliver_benign app app_benign cs (EvClosing code reason)) as (cd & Ed & (_&_&_&_&_&D6&_) & _).
+      pose proof (deliver_writes app app_benign cs (EvClosing code reason)) as DW.
+      pose proof (deliver_wok app app_benign cs (EvClosing code reason)) as DK.
+      rewrite Ed in *. cbn [fst] in DW, DK.
+      assert (Hs0 : k_sent_close_time cd = None) by (rewrite D6; exact Hsc).
+      destruct (RW R0 cd Hs0) as [R1 R2].
+      destruct (regular_quiet cf app app_benign no_ping_timeout cd Hs0) as (Q1 & _).
+      destruct (regular cf app cd) as [c2 st2]. cbn [fst snd] in *. subst st2.
+      split; [rewrite R1; exact DW|intros w0; apply R2, DK, w0]. }
     destruct (in_feed_yield cf app cs (EvClosing code reason)) as [c2 st2]. cbn [fst snd] in *. subst st2. cbv beta iota.
     assert (Hcl2 : k_closed c2 = false) by (rewrite Z4; exact Hcl).
     assert (Hcg2 : k_closing c2 = false) by (rewrite Z3; exact Hcg).
@@ -141,13 +145,13 @@ Section CloseStream.
     split; [rewrite Elw, (msg_events_not_event lw _ Flw), Y3; change (k_tr cs) with (k_tr c1); rewrite M1; reflexivity|].
     split; [rewrite Elw, perrors_nope by (eapply Forall_impl; [exact not_event_nope|exact Flw]); rewrite Y4; change (k_tr cs) with (k_tr c1); exact P1|].
     split; [reflexivity|]. split; [exact F2|].
-    intros Pa R0 Au Hw.
-    destruct (W1 Pa R0 Au Hw) as (Hw1 & Ew1).
-    destruct (WY Pa R0) as (Ew2 & Hw2).
+    intros R0 Au Hw.
+    destruct (W1 R0 Au Hw) as (Hw1 & Ew1).
+    destruct (WY R0) as (Ew2 & Hw2).
     assert (Hwcs : wok cs) by exact Hw1. specialize (Hw2 Hwcs). destruct Hw2 as (K1 & K2 & K3).
     assert (Hpl125 : blen (close_payload code reason) <= 125) by (rewrite (good_close_payload _ _ _ Hgood); exact Hlen).
     destruct (close_writes_the_close_frame c2 code reason K1 Hcl2 Hcg2 Hpl125 ltac:(rewrite K2; exact I)) as (T1 & _ & _).
-    cbv zeta in T1. rewrite T1. cbn [writes]. rewrite (good_close_payload _ _ _ Hgood).
+    cbv zeta in T1. rewrite T1, writes_write. rewrite (good_close_payload _ _ _ Hgood).
     rewrite wview_build; [|apply next_key_length; exact K3|reflexivity|lia].
     rewrite Ew2. change (k_tr cs) with (k_tr c1). rewrite Ew1. reflexivity.
   Qed.
@@ -173,16 +177,6 @@ Proof.
     (destruct (125 <? blen payload); [reflexivity|apply send_frame_closing_writes; exact H]).
 Qed.
 
-Lemma do_actions_closing_writes acts : Forall send_action acts -> forall c, k_closing c = true ->
-  writes (k_tr (fst (do_actions c acts))) = writes (k_tr c).
-Proof.
-  induction 1 as [|a acts Ha _ IH]; intros c Hc; [reflexivity|].
-  destruct a as [cl|w]; [|contradiction]. cbn [do_actions].
-  destruct (api_send_core c cl Ha) as [(_&_&A3&_) _]. pose proof (api_send_closing_writes c cl Ha Hc) as B.
-  destruct (api_call c cl) as [c1 r]. cbn [fst] in *.
-  rewrite IH by (cbn; congruence). exact B.
-Qed.
-
 Section ClientClose.
   Variable cf : cfg.
   Variable app : strategy.
@@ -191,7 +185,7 @@ Section ClientClose.
   Hypothesis no_close_timeout : zpos (c_close_timeout cf) = None.
 
   Lemma deliver_closing_writes c e : k_closing c = true -> writes (k_tr (fst (deliver app c e))) = writes (k_tr c).
-  Proof. intros H. unfold deliver. rewrite do_actions_closing_writes; [reflexivity|apply app_benign|exact H]. Qed.
+  Proof. intros _. apply deliver_writes. exact app_benign. Qed.
 
   (* housekeeping while closing, with no timeout configured: Polls only; the automatic Ping is refused *)
   Lemma regular_closing c : k_closing c = true ->
